@@ -382,6 +382,7 @@ def check(ctx):
     backward_options_contract(ctx)
     round3_contract(ctx)
     callable_kinds_probe(ctx)
+    round5_contract(ctx)
 
 
 # ---------------------------------------------------------------------------------------
@@ -750,6 +751,71 @@ def round3_contract(ctx):
         if list(Xz.shape) != [2, 3, 1] or gB is None or list(gB.shape) != [3, 1] or not torch.allclose(gB, ref_gB, rtol=1e-6, atol=1e-8):
             ctx.fail("oracle", "options:solve:zero-rhs-broadcast", {"method": meth if isinstance(meth, str) else "<callable>", "A": [2, 3, 3], "B": "zeros (3, 1)"},
                      {"X_shape": list(Xz.shape), "grad_B": None if gB is None else gB.tolist()}, {"X_shape": [2, 3, 1], "grad_B": ref_gB.tolist()})
+
+
+def round5_contract(ctx):
+    """mcquad with a caller-supplied sampler: the sampler is called with (log_pfcn, x0, pparams, **options) where pparams are the
+    CALLER's pparams - also when the integrand is a method of an object with parameters of its own, or the density is
+    (round-5 seed C18/13: the split of the flattened parameter list dropped the offset of the integrand's object parameters, the
+    sampler received the integrand's object parameter in place of pparams)"""
+    import xitorch as xt
+    from xitorch.integrate import mcquad
+
+    class Fn(xt.EditableModule):
+        def __init__(self, a):
+            self.a = a
+
+        def f(self, x, *extra):
+            return torch.exp(-x * x / (2 * self.a * self.a)) * (extra[0] if extra else 1.0)
+
+        def logp(self, x, *extra):
+            return -x * x / (2 * self.a * self.a) * (extra[0] if extra else 1.0)
+
+        def getparamnames(self, methodname, prefix=""):
+            return [prefix + "a"]
+    a = torch.tensor(0.3, dtype=DT, requires_grad=True)
+    b = torch.tensor(0.7, dtype=DT, requires_grad=True)
+    w = torch.tensor(1.2, dtype=DT, requires_grad=True)
+    s = torch.tensor(1.5, dtype=DT, requires_grad=True)
+    x0 = torch.tensor(0.0, dtype=DT)
+    seen = {}
+
+    def sampler(log_pfcn, x0, pparams, ngrid=11, **unused):
+        seen["pparams"] = [p.detach().clone() for p in pparams]
+        seen["grad"] = torch.is_grad_enabled()
+        seen["ngrid"] = ngrid
+        xs = torch.linspace(-2.0, 2.0, ngrid, dtype=x0.dtype)
+        lp = torch.stack([log_pfcn(x, *pparams) for x in xs])
+        ws = torch.exp(lp - lp.max())
+        return xs, ws / ws.sum()
+    plain_f = lambda x, c: torch.exp(-x * x) * c
+    plain_lp = lambda x, c: -x * x / (2 * c * c)
+    combos = [("integrand-method+explicit-pparams", Fn(a).f, plain_lp, [], [w], [w]),
+              ("integrand-method-with-fparams+explicit-pparams", Fn(a).f, plain_lp, [s], [w], [w]),
+              ("density-method+explicit-fparams", plain_f, Fn(b).logp, [s], [], []),
+              ("both-methods+both-explicit", Fn(a).f, Fn(b).logp, [s], [w], [w])]
+    for name, ff, lp, fparams, pparams, want in combos:
+        seen.clear()
+        ctx.count(("mcquad-custom-sampler-arguments", name), nontrivial=True)
+        try:
+            with warnings.catch_warnings():
+                warnings.simplefilter("ignore")
+                res = mcquad(ff, lp, x0, fparams=fparams, pparams=pparams, method=sampler, ngrid=9)
+        except Exception as e:
+            ctx.fail("oracle", "dispatch:mcquad:custom-sampler:exception", {"case": name}, repr(e)[:300], "the sampler is called and its samples are used")
+            continue
+        got = seen.get("pparams")
+        info = {"case": name, "fparams": [float(t.detach()) for t in fparams], "pparams": [float(t.detach()) for t in pparams]}
+        if got is None or len(got) != len(want) or any(float(g) != float(t.detach()) for g, t in zip(got, want)) or seen.get("grad") or seen.get("ngrid") != 9:
+            ctx.fail("oracle", "dispatch:mcquad:custom-sampler:arguments", info,
+                     {"pparams_seen": None if got is None else [float(g) for g in got], "grad_enabled": seen.get("grad"), "ngrid": seen.get("ngrid")},
+                     "pparams = the caller's pparams, no gradient recording, the caller's options")
+            continue
+        with torch.no_grad():
+            xs, ws = sampler(lp, x0, [t.detach() for t in pparams], ngrid=9)
+            ref = sum(ff(x, *[t.detach() for t in fparams]) * wi for x, wi in zip(xs, ws))
+        if not torch.allclose(res.detach(), ref, rtol=1e-12, atol=1e-14):
+            ctx.fail("oracle", "dispatch:mcquad:custom-sampler:value", info, {"got": float(res), "weighted_sum_of_the_samples": float(ref)}, "equal")
 
 
 def search(ctx):
